@@ -25,7 +25,7 @@ CONSTANTS MaxG,                     \* bound on the number of groups (domain of 
           DevFsckIgnoresFeatDiff,   \*   tune2fs leaves MASTER_SB_ONLY set; check_backup_super_block ignores feature words;
           DevFlushSkipsLast,        \*   write_backup_super skipped for the last backup group;
           DevResizeKeepsOldGdt,     \*   resize2fs does not rewrite the descriptor backups of groups that existed before
-          DevResizeMovesSoleBackup  \*   literal adjust_fs_info (fixes/C20_resize_ss2_sole_backup.patch repairs it)
+          DevResizeMovesSoleBackup  \*   literal adjust_fs_info (fixes/C20_1_resize_ss2_sole_backup.patch repairs it)
 VARIABLES prim, sbk, gdk, mgk, last, steps, saved, rec
 vars == <<prim, sbk, gdk, mgk, last, steps, saved, rec>>
 
